@@ -18,6 +18,9 @@ GRIDS = {
     "G_flip": lambda: fm.UniformGrid((3, 4), axes_increase=[True, False]),
     "H": lambda: fm.UniformGrid((3, 4), spacing=(2.0, 1.0)),  # other geometry, same shape
     "nogrid": lambda: fm.NoGrid(2),
+    # one-dimensional grids (4 cells), x increasing / decreasing
+    "L": lambda: fm.UniformGrid((5,)),
+    "L_flip": lambda: fm.UniformGrid((5,), axes_increase=[False]),
     # the same unstructured mesh (5 points, 5 triangles: equal counts) with data on points / on cells
     "U_points": lambda: _mesh("POINTS"),
     "U_cells": lambda: _mesh("CELLS"),
@@ -31,6 +34,16 @@ def _mesh(loc):
 UNITS = ["unset", "m", "km", "s"]
 MASKS = ["FLEX", "NONE", "A", "B", "nomask", "all-false"]
 ARRAY_MASKS = ("A", "B", "nomask", "all-false")
+
+
+PHYS1 = {"A": np.array([True, True, False, False]), "B": np.array([False, True, False, True]),
+         "all-false": np.zeros(4, bool)}
+
+
+def _mask1(name, grid):
+    """1-D mask given physically (along increasing x), expressed in the layout of ``grid``"""
+    arr = PHYS1[name]
+    return arr.copy() if grid.axes_increase[0] else arr[::-1].copy()
 
 
 def _phys(name):
@@ -49,7 +62,9 @@ def _info(ctx, side, grid_opts, unit_opts, mask_opts, vary_time, vary_foo):
 def _build(spec, side):
     grid = GRIDS[spec["grid"]]()
     mask = spec["mask"]
-    if mask in ("A", "B", "all-false"):
+    if mask in ("A", "B", "all-false") and spec["grid"] in ("L", "L_flip"):
+        mask = _mask1(mask, grid)
+    elif mask in ("A", "B", "all-false"):
         mg = grid if isinstance(grid, fm.UniformGrid) else None
         mask = _mask(mask, ref_grid=REF(), grid=mg)
     elif mask == "nomask":
@@ -175,7 +190,7 @@ def h_link(ctx):
         # mask requirement / carried-over mask, physically, in the INPUT's grid layout
         pm = state["mask"]
         if pm in ("A", "B") and isinstance(inf.grid, fm.UniformGrid):
-            want = _mask(pm, ref_grid=REF(), grid=inf.grid)
+            want = _mask1(pm, inf.grid) if inf.grid.dim == 1 else _mask(pm, ref_grid=REF(), grid=inf.grid)
             got = inf.mask
             ctx.check(isinstance(got, np.ndarray) and got.shape == want.shape and bool(np.array_equal(got, want)),
                       "input-mask-not-in-input-grid-layout", {"sig": f"pgrid={state['grid']}:cgrid={c['grid']}"})
@@ -264,11 +279,16 @@ ASSUMPTIONS = ["field interactions are explored in two sub-products (grid x mask
 
 def families(tier):
     q = tier == "quick"
-    allg = list(GRIDS)
+    allg = [g for g in GRIDS if g not in ("L", "L_flip")]
     fams = [
         dict(name="link:grid_x_mask", ref="vf.props.c07:h_link",
              params={"grids": allg, "units": ["m"], "masks": MASKS, "vary_time": False, "vary_foo": False},
              bounds="producer x consumer: 6 grid options x 6 mask options, units/time fixed", must_cover=["ok", "meta-error"]),
+        dict(name="link:1d_grid_x_mask", ref="vf.props.c07:h_link",
+             params={"grids": ["unset", "L", "L_flip"], "units": ["m"], "masks": MASKS, "vary_time": False,
+                     "vary_foo": False},
+             bounds="producer x consumer: one-dimensional grid (x increasing / decreasing / unset) x 6 mask options",
+             must_cover=["ok", "meta-error"]),
         dict(name="link:unstructured_location", ref="vf.props.c07:h_link",
              params={"grids": ["unset", "U_points", "U_cells", "G"], "units": ["m"], "masks": ["FLEX"],
                      "vary_time": False, "vary_foo": False},
